@@ -172,7 +172,13 @@ class BufferedReader:
                     yield self._buffer[:pos]
                 return
 
-        yield self._buffer
+        # NOTE: The source was exhausted without finding the delimiter; hand out
+        #   whatever is left in the buffer, and mark it as consumed so that it
+        #   is neither returned again nor counted as unread by tell().
+        output = self._buffer
+        self._buffer = b''
+        self._buffer_len = 0
+        yield output
 
     async def _consume_delimiter(self, delimiter: bytes) -> None:
         delimiter_len = len(delimiter)
